@@ -670,7 +670,10 @@ def gen_qualifiers(rng, decls, scope, maxn=3):
              and d.name not in ('Key', 'EmbeddedInstance', 'EmbeddedObject')]
     rng.shuffle(cands)
     for d in cands[:rng.randint(0, maxn)]:
-        out.append(qualifier_for(rng, d))
+        q = qualifier_for(rng, d)
+        if rng.random() < 0.06:
+            q.value = None          # an explicit NULL qualifier value: written as `Q ( NULL )`
+        out.append(q)
     return out
 
 
@@ -828,7 +831,7 @@ def value_diff(a, b, typ):
     """'' if equal; otherwise a short classification of how the compiled value b differs from the original a"""
     import pywbem
     if a is None or b is None:
-        return '' if a is b else ('null_vs_value' if a is None or b is None else '')
+        return '' if a is b else ('null_became_value' if a is None else 'value_became_null')
     if isinstance(a, list) != isinstance(b, list):
         return 'array_shape'
     if isinstance(a, list):
@@ -1259,6 +1262,261 @@ def stage_typed_values(run):
             run.disagree(case, a, real, 'valread')
 
 
+def fl_json(o):
+    return {'o': o.overridable, 's': o.tosubclass, 't': o.translatable, 'i': o.toinstance}
+
+
+def qd_json(qd, real=False):
+    vj = real_value_json if real else value_json
+    j = {'name': common.cps(qd.name), 'ty': qd.type, 'arr': bool(qd.is_array), 'size': qd.array_size,
+         'scopes': [bool(qd.scopes.get(sc, False)) for sc in SCOPES], 'fl': fl_json(qd)}
+    if qd.value is not None:
+        j['value'] = vj(qd.value, qd.type)
+    return j
+
+
+def q_json(q, real=False):
+    vj = real_value_json if real else value_json
+    return {'name': common.cps(q.name), 'ty': q.type, 'value': vj(q.value, q.type), 'fl': fl_json(q)}
+
+
+def canon_obj(j):
+    """model JSON -> comparable with the JSON made from real objects (float texts -> doubles)"""
+    if isinstance(j, dict):
+        if 'r' in j and len(j) == 1:
+            return canon_val(j)
+        return dict((k, canon_obj(v)) for k, v in j.items())
+    if isinstance(j, list):
+        return [canon_obj(x) for x in j]
+    return j
+
+
+_NULLQ_FIXED = None
+
+
+def null_qualifier_fixed():
+    """does the compiler under test keep an explicit NULL qualifier value (fix 'explicit NULL qualifier value')?"""
+    global _NULLQ_FIXED
+    if _NULLQ_FIXED is None:
+        conn, e = compile_mof('Qualifier Qs : string = "d", Scope(any);\n[Qs(NULL)] class C_probe {\n};\n')
+        _NULLQ_FIXED = e is None and conn.classes[NS]['C_probe'].qualifiers['Qs'].value is None
+    return _NULLQ_FIXED
+
+
+def stage_typed_qualifiers(run):
+    """K for stage 2 of the typed model: qualifier declarations and qualifier lists, both directions"""
+    import pywbem
+    from pywbem import _cim_obj
+    from pywbem._nocasedict import NocaseDict
+    rng = run.rng
+    n = 6000 if run.thorough else 900
+    # ---- qualifier declarations
+    qds = [(gen_qualdecl(rng), rng.choice([40, 60, 80, 80, 100, 120, rng.randint(40, 120)])) for _ in range(n)]
+    ans = common.run_driver(PROP, [{'op': 'qdmof', 'qd': qd_json(qd), 'maxline': ml} for qd, ml in qds])
+    reads = []
+    for (qd, ml), a in zip(qds, ans):
+        try:
+            real = {'ok': common.cps(qd.tomof(ml))}
+        except Exception as e:  # noqa
+            real = exc_json(e)
+        case = {'op': 'qdmof', 'maxline': ml, 'obj': obj_repr(qd)}
+        run.case(case, nontrivial='ok' in real)
+        run.count('qdmof:' + real.get('exc', 'ok'))
+        if a != real:
+            run.disagree(case, a, real, 'qdmof')
+        if 'ok' in real:
+            reads.append((qd, common.from_cps(real['ok'])))
+    ans = common.run_driver(PROP, [{'op': 'qdread', 'text': common.cps(t)} for _, t in reads])
+    for (qd, t), a in zip(reads, ans):
+        conn, e = compile_mof(t)
+        real = exc_json(e) if e is not None else {'qd': qd_json(conn.qualifiers[NS][qd.name], real=True)}
+        model = canon_obj(a)
+        case = {'op': 'qdread', 'text': t}
+        run.case(case, nontrivial='qd' in real)
+        run.count('qdread:' + real.get('exc', 'ok'))
+        if model != real:
+            run.disagree(case, a, real, 'qdread')
+    # ---- qualifier lists
+    fixed = null_qualifier_fixed()
+    run.count('nullq_fixed=%s' % fixed)
+    reqs, cases = [], []
+    for _ in range(n):
+        decls = [norm_qualdecl(d) for d in std_decls(rng)]
+        scope = rng.choice(['CLASS', 'PROPERTY', 'METHOD', 'PARAMETER'])
+        quals = gen_qualifiers(rng, decls, scope, maxn=5)
+        if not fixed:
+            # the model mirrors the compiler after the fix "explicit NULL qualifier value" (C08-F4)
+            quals = [q for q in quals if q.value is not None]
+        if rng.random() < 0.3:
+            for q in quals:
+                q.name = recase(rng, q.name)
+        indent = rng.choice([3, 6, 9, rng.randint(0, 12)])
+        ml = rng.choice([40, 60, 80, 80, 100, 120, rng.randint(40, 120)])
+        cases.append((decls, quals, indent, ml))
+        reqs.append({'op': 'qlmof', 'quals': [q_json(q) for q in quals], 'indent': indent, 'maxline': ml})
+    ans = common.run_driver(PROP, reqs)
+    reads = []
+    for (decls, quals, indent, ml), a in zip(cases, ans):
+        try:
+            real = {'ok': common.cps(_cim_obj._qualifiers_tomof(NocaseDict([(q.name, q) for q in quals]), indent, ml))}
+        except Exception as e:  # noqa
+            real = exc_json(e)
+        case = {'op': 'qlmof', 'indent': indent, 'maxline': ml, 'quals': [obj_repr(q) for q in quals]}
+        run.case(case, nontrivial=bool(quals))
+        run.count('qlmof:%s:n=%d' % (real.get('exc', 'ok'), min(len(quals), 3)))
+        if a != real:
+            run.disagree(case, a, real, 'qlmof')
+        if 'ok' in real and len(set(q.name.lower() for q in quals)) == len(quals):
+            reads.append((decls, quals, common.from_cps(real['ok'])))
+    ans = common.run_driver(PROP, [{'op': 'qlread', 'decls': [qd_json(d) for d in decls], 'text': common.cps(t)}
+                                   for decls, _, t in reads])
+    for (decls, quals, t), a in zip(reads, ans):
+        comp, conn = compiler()
+        seed_context(conn, decls, [])
+        err = session_compile(comp, t + 'class C_ql {\n};\n')
+        if err:
+            real = {'exc': err['exc']}
+        else:
+            real = {'quals': [q_json(q, real=True) for q in conn.classes[NS]['C_ql'].qualifiers.values()]}
+        model = canon_obj(a)
+        case = {'op': 'qlread', 'text': t}
+        run.case(case, nontrivial=bool(quals))
+        run.count('qlread:' + real.get('exc', 'ok'))
+        if model != real:
+            run.disagree(case, a, real, 'qlread')
+
+
+def prop_json(p, real=False, with_value=True):
+    vj = real_value_json if real else value_json
+    j = {'name': common.cps(p.name), 'ty': p.type, 'rc': common.cps(p.reference_class) if p.reference_class else None,
+         'arr': bool(p.is_array), 'size': p.array_size, 'quals': [q_json(q, real) for q in p.qualifiers.values()]}
+    if with_value and p.value is not None:
+        j['value'] = vj(p.value, p.type)
+    return j
+
+
+def method_json(m, real=False):
+    return {'name': common.cps(m.name), 'rt': m.return_type,
+            'params': [prop_json(a, real, with_value=False) for a in m.parameters.values()],
+            'quals': [q_json(q, real) for q in m.qualifiers.values()]}
+
+
+def class_json(c, real=False):
+    return {'name': common.cps(c.classname), 'super': common.cps(c.superclass) if c.superclass else None,
+            'quals': [q_json(q, real) for q in c.qualifiers.values()],
+            'props': [prop_json(p, real) for p in c.properties.values()],
+            'methods': [method_json(m, real) for m in c.methods.values()]}
+
+
+def inst_json(i, real=False):
+    return {'cn': common.cps(i.classname), 'props': [prop_json(p, real) for p in i.properties.values()]}
+
+
+def has_embedded_value(inst):
+    import pywbem
+    for p in inst.properties.values():
+        for v in (p.value if isinstance(p.value, list) else [p.value]):
+            if isinstance(v, (pywbem.CIMInstance, pywbem.CIMClass)):
+                return True
+    return False
+
+
+def stage_typed_decls(run):
+    """K for stage 3 of the typed model: classes and instances, both directions"""
+    rng = run.rng
+    n = 3000 if run.thorough else 450
+    fixed = null_qualifier_fixed()
+    cases = []
+    for _ in range(n):
+        decls = [norm_qualdecl(d) for d in std_decls(rng)]
+        base = gen_class(rng, decls, gen_name(rng, 'B_'))
+        other = gen_class(rng, decls, gen_name(rng, 'R_'))
+        cls = gen_class(rng, decls, gen_name(rng, 'C_'), superclass=rng.choice([None, base.classname]),
+                        refclasses=[base.classname, other.classname], embed=other.classname)
+        if not fixed:
+            for holder in [cls] + list(cls.properties.values()) + list(cls.methods.values()) + \
+                    [a for m in cls.methods.values() for a in m.parameters.values()]:
+                for qn in [k for k, q in holder.qualifiers.items() if q.value is None]:
+                    del holder.qualifiers[qn]
+        ml = rng.choice([40, 60, 80, 80, 100, 120, rng.randint(40, 120)])
+        cases.append((decls, [base, other], cls, ml))
+    ans = common.run_driver(PROP, [{'op': 'clsmof', 'cls': class_json(cls), 'maxline': ml}
+                                   for (_, _, cls, ml) in cases])
+    reads = []
+    for (decls, ctx, cls, ml), a in zip(cases, ans):
+        try:
+            real = {'ok': common.cps(cls.tomof(ml))}
+        except Exception as e:  # noqa
+            real = exc_json(e)
+        case = {'op': 'clsmof', 'maxline': ml, 'obj': obj_repr(cls)}
+        run.case(case, nontrivial='ok' in real)
+        run.count('clsmof:' + real.get('exc', 'ok'))
+        if a != real:
+            run.disagree(case, a, real, 'clsmof')
+        if 'ok' in real:
+            reads.append((decls, ctx, cls, common.from_cps(real['ok'])))
+    ans = common.run_driver(PROP, [{'op': 'clsread', 'decls': [qd_json(d) for d in decls], 'text': common.cps(t)}
+                                   for (decls, _, _, t) in reads])
+    for (decls, ctx, cls, t), a in zip(reads, ans):
+        comp, conn = compiler()
+        seed_context(conn, decls, ctx)
+        err = session_compile(comp, t)
+        real = {'exc': err['exc']} if err else {'cls': class_json(conn.classes[NS][cls.classname], real=True)}
+        model = canon_obj(a)
+        case = {'op': 'clsread', 'text': t}
+        run.case(case, nontrivial='cls' in real)
+        run.count('clsread:' + real.get('exc', 'ok'))
+        if model != real:
+            run.disagree(case, a, real, 'clsread')
+    # ---- instances
+    icases = []
+    for _ in range(n):
+        decls = [norm_qualdecl(d) for d in std_decls(rng)]
+        other = gen_class(rng, [], gen_name(rng, 'R_'))
+        cls = gen_class(rng, decls, gen_name(rng, 'C_'), refclasses=[other.classname], embed=other.classname)
+        inst = gen_instance(rng, cls, None)
+        if inst is None or has_embedded_value(inst):
+            continue
+        if rng.random() < 0.3:
+            inst.classname = recase(rng, inst.classname)
+        ml = rng.choice([40, 60, 80, 80, 100, 120, rng.randint(40, 120)])
+        icases.append((decls, other, cls, inst, ml))
+    ans = common.run_driver(PROP, [{'op': 'instmof', 'inst': inst_json(i), 'maxline': ml}
+                                   for (_, _, _, i, ml) in icases])
+    reads = []
+    for (decls, other, cls, inst, ml), a in zip(icases, ans):
+        try:
+            real = {'ok': common.cps(inst.tomof(ml))}
+        except Exception as e:  # noqa
+            real = exc_json(e)
+        case = {'op': 'instmof', 'maxline': ml, 'obj': obj_repr(inst)}
+        run.case(case, nontrivial='ok' in real)
+        run.count('instmof:' + real.get('exc', 'ok'))
+        if a != real:
+            run.disagree(case, a, real, 'instmof')
+        if 'ok' in real:
+            reads.append((decls, other, cls, inst, common.from_cps(real['ok'])))
+    ans = common.run_driver(PROP, [{'op': 'instread', 'cls': class_json(cls), 'text': common.cps(t)}
+                                   for (_, _, cls, _, t) in reads])
+    for (decls, other, cls, inst, t), a in zip(reads, ans):
+        comp, conn = compiler()
+        seed_context(conn, decls, [cls, other])
+        n0 = len(conn.instances[NS])
+        err = session_compile(comp, t)
+        if err:
+            real = {'exc': err['exc']}
+        elif len(conn.instances[NS]) != n0 + 1:
+            real = {'exc': 'not-stored'}
+        else:
+            real = {'inst': inst_json(conn.instances[NS][-1], real=True)}
+        model = canon_obj(a)
+        case = {'op': 'instread', 'text': t}
+        run.case(case, nontrivial='inst' in real)
+        run.count('instread:' + real.get('exc', 'ok'))
+        if model != real:
+            run.disagree(case, a, real, 'instread')
+
+
 # =========================================================================== stage 3: sessions
 
 SESSION_QNAMES = ['Qa', 'Qb', 'Qc']
@@ -1599,6 +1857,8 @@ def run(run):
     stage1_numbers(run)
     stage1_arrays(run)
     stage_typed_values(run)
+    stage_typed_qualifiers(run)
+    stage_typed_decls(run)
     stage2(run)
     stage3(run)
 
